@@ -60,22 +60,23 @@ MIX = {
 DESIGN = {
     "C02": [("retry.cfg", "all"), ("reports.cfg", "all")],
     "C03": [("retry.cfg", "all"), ("reports.cfg", "all")],
-    "C04": [("flow.cfg", "all"), ("retry_nocup.cfg", "all"), ("sched.cfg", 150)],
+    "C04": [("flow.cfg", "all"), ("retry_nocup.cfg", "all"), ("sched.cfg", 150), ("history.cfg", 150)],
     "C05": [("flow.cfg", "all"), ("sched.cfg", 250)],
     "C06": [("retry.cfg", "all"), ("retry_nocup.cfg", "all")],
-    "C07": [("retry.cfg", "all"), ("reports.cfg", "all"), ("sched.cfg", 150)],
-    "C08": [("retry_nocup.cfg", "all"), ("sched.cfg", 250)],
-    "C09": [("flow.cfg", "all"), ("sched.cfg", 250)],
+    "C07": [("retry.cfg", "all"), ("reports.cfg", "all"), ("sched.cfg", 150), ("history.cfg", 200)],
+    "C08": [("retry_nocup.cfg", "all"), ("sched.cfg", 250), ("history.cfg", 400)],
+    "C09": [("flow.cfg", "all"), ("sched.cfg", 250), ("history.cfg", 400)],
     "C10": [("flow.cfg", "all"), ("reports.cfg", "all")],
-    "C11": [("sched.cfg", 400)],
-    "C12": [("sched.cfg", 400)],
+    "C11": [("sched.cfg", 400), ("history.cfg", 200), ("sched_inv.cfg", "inv")],
+    "C12": [("sched.cfg", 400), ("sched_inv.cfg", "inv")],
     "C13": [("sched.cfg", 250), ("flow.cfg", "all")],
     "C14": [("flow.cfg", "all")],
-    "C18": [("flow.cfg", "all"), ("sched.cfg", 250)],
+    "C18": [("flow.cfg", "all"), ("sched.cfg", 250), ("history.cfg", 400)],
 }
-THOROUGH_INV = {"C04": ["sched_inv.cfg"], "C05": ["sched_inv.cfg"], "C07": ["sched_inv.cfg"], "C08": ["sched_inv.cfg"],
-                "C09": ["sched_inv.cfg"], "C11": ["sched_inv.cfg"], "C12": ["sched_inv.cfg"], "C13": ["sched_inv.cfg"],
-                "C18": ["sched_inv.cfg"]}
+# (history_inv: 10.1 million distinct states, ~17 min on 8 workers: a crash at every operation of every behaviour, twice)
+THOROUGH_INV = {"C04": ["sched_inv.cfg"], "C05": ["sched_inv.cfg"], "C07": ["sched_inv.cfg"],
+                "C08": ["sched_inv.cfg", "history_inv.cfg"], "C09": ["sched_inv.cfg", "history_inv.cfg"], "C11": [],
+                "C12": [], "C13": ["sched_inv.cfg"], "C18": ["sched_inv.cfg", "history_inv.cfg"]}
 
 
 def prop_cfg(cfg, pid, wd):
@@ -95,8 +96,9 @@ def design_runs(pid, tier, seed, wd):
     viols = []
     for cfg, how in DESIGN.get(pid, []):
         path = prop_cfg(cfg, pid, wd)
-        if how == "all":
-            rc, out, st = vlib.tlc("MCOmaha", path, workers=8, name="design.%s.%s" % (pid, cfg))
+        if how in ("all", "inv"):
+            # "inv": exhaustive, VIEW without history, no behaviours printed
+            rc, out, st = vlib.tlc("MCOmaha", path, workers=8, name="design.%s.%s" % (pid, cfg), timeout=3000)
         else:
             num = how * (6 if tier == "thorough" else 1)
             rc, out, st = vlib.tlc("MCOmaha", path, workers=1, name="design.%s.%s" % (pid, cfg),
